@@ -59,7 +59,9 @@ HeldIssues(strict, prev, obs, e, h) ==
   IF strict.k = "unknown" THEN {}
   ELSE IF strict.k = "exec" THEN
      (IF obs = h THEN {}
-      ELSE IF obs = 0 THEN {Issue("C07", <<"held batch not executed at first rated block", e.id, h>>)}
+      ELSE IF obs = 0 THEN {Issue("C07", <<"held batch not executed at first rated block", e.id, h>>),
+                            \* the window [last rated, h) is visited once: a batch that is still pending afterwards was never considered
+                            Issue("C06", <<"held batch was not considered in the one pass that visits its height", e.id, h>>)}
       ELSE {Issue("C13", <<"admissible funded conversion refused", e.id, h, obs>>)})
   ELSE IF strict.k = "replay" THEN
      (IF obs = prev THEN {}
